@@ -134,7 +134,7 @@ void h_copy(void) {
 }
 """ % (fields, ens, body)
     return dict(unit="K15_forestindex_copy_" + which, lang="c", source="include/parmcb/forestindex.hpp ForestIndex copy " + which,
-                text=fn, entry="h_copy", enforce="copy_op", mode="proof", timeout=120, rewrites=log,
+                text=fn, entry="h_copy", enforce="copy_op", mode="proof", timeout=600, rewrites=log,
                 bound="all member values, incl. self-assignment", dropped=["class wrapper"],
                 functions={"ForestIndex copy %s" % which: "proved (member-wise)"},
                 assumptions=["std::map / std::vector copy assignment copy the value (containers bound to an opaque identity)"],
